@@ -141,7 +141,6 @@ var model = porcupine.Model{
 	DescribeOperation: func(in, out interface{}) string { return fmt.Sprintf("%+v -> %+v", in, out) },
 }
 
-
 type stats struct {
 	mu       sync.Mutex
 	buckets  map[string]struct{}
